@@ -257,7 +257,18 @@ pub fn check_c07(l: &Ledger) -> Vec<Violation> {
                 }
                 // response
                 let Some(tx) = l.txs.iter().find(|t| t.id == id && t.gen == st.gen && t.awaiting_before(st.idx)) else {
-                    continue; // unknown or finished id: C05's business
+                    // unknown or finished id: C05's business. If the client nevertheless delivered it, follow what
+                    // it learned from it so that this defect is not reported a second time under C07 keys.
+                    if delivered(st, &id, 2) && alg.is_none() {
+                        alg = if s.has_mi && ok_mi {
+                            Some(Alg::Mi)
+                        } else if s.has_sha && ok_sha {
+                            Some(Alg::Sha)
+                        } else {
+                            None
+                        };
+                    }
+                    continue;
                 };
                 let got = delivered(st, &id, 2);
                 let both = s.has_mi && s.has_sha;
